@@ -132,11 +132,11 @@ def run_archmon(prop, tier, t0):
 def run_procmon(prop, tier, t0):
     from kv import procmon
     if prop == 'C04':
-        opts = {'quick': {'cases': 320, 'budget_s': 55}, 'thorough': {'cases': 12000, 'budget_s': 800}}[tier]
+        opts = {'quick': {'cases': 480, 'budget_s': 55}, 'thorough': {'cases': 12000, 'budget_s': 800}}[tier]
         req = ['c04_reads_same_handle', 'c04_reads_new_handle', 'c04_reads_new_process', 'c04_reads_after_exit',
                'c04_rebuilds_state', 'c04_rebuilds_copy', 'c04_rebuilds_dill',
                'c04_function_recreated_same_process', 'c04_function_recreated_live_process',
-               'c04_function_recreated_after_exit']
+               'c04_function_recreated_after_exit', 'c04_named_copy_checks']
         floor = 60
         anchors = ['file_import_reader', 'dir_import_reader']
     else:
